@@ -100,7 +100,7 @@ func c07Generate(seed uint64, tier string, index int) json.RawMessage {
 				case x < 6:
 					op = c07Op{Kind: "put", Doc: r.Intn(3)}
 				case x < 9:
-					op = c07Op{Kind: "push", Doc: r.Intn(2)}
+					op = c07Op{Kind: []string{"push", "push", "pushsame"}[r.Intn(3)], Doc: r.Intn(2)}
 				case x < 11:
 					op = c07Op{Kind: "reject", Doc: r.Intn(3)}
 				case x < 13:
@@ -125,7 +125,7 @@ func c07Generate(seed uint64, tier string, index int) json.RawMessage {
 		for t := 0; t < r.Range(3, 4); t++ {
 			var prog []c07Op
 			for i := 0; i < r.Range(2, 4); i++ {
-				prog = append(prog, c07Op{Kind: []string{"push", "push", "put"}[r.Intn(3)], Doc: 0})
+				prog = append(prog, c07Op{Kind: []string{"push", "push", "put", "pushsame", "pushsame"}[r.Intn(5)], Doc: 0})
 			}
 			p.Tasks = append(p.Tasks, prog)
 		}
@@ -587,6 +587,22 @@ func c07RunDB(env *verifsim.Env, p *c07Plan) *verifsim.Violation {
 						hist = append(hist, parent)
 					}
 					_, _, err := coll.PutExistingRevWithBody(ctx, id, Body{"tok": tok, "channels": []string{"A"}}, hist, !p.Node.AllowConflicts, ExistingVersionWithUpdateToHLV)
+					rec.End(nil, err)
+				case "pushsame":
+					// the same revision (same id, same body, same ancestry) delivered by several writers at once, as two
+					// replications of one peer do: one of them stores it, the others find it already known
+					rec := t.Begin("pushsame", id)
+					parent := ""
+					if d, err := coll.GetDocument(ctx, id, DocUnmarshalSync); err == nil && d != nil {
+						parent = d.GetRevTreeID()
+					}
+					gen, _ := ParseRevID(ctx, parent)
+					newRev := fmt.Sprintf("%d-5a3e", gen+1)
+					hist := []string{newRev}
+					if parent != "" {
+						hist = append(hist, parent)
+					}
+					_, _, err := coll.PutExistingRevWithBody(ctx, id, Body{"tok": "same-" + newRev, "channels": []string{"A"}}, hist, !p.Node.AllowConflicts, ExistingVersionWithUpdateToHLV)
 					rec.End(nil, err)
 				case "conflict":
 					rec := t.Begin("conflict", id)
